@@ -863,7 +863,13 @@ func (it *item) classify(cuts []int) {
 	}
 }
 
+var countOnly = os.Getenv("C11_COUNT") != "" // development aid: enumerate the space without executing it
+
 func (it *item) one(cuts []int) {
+	if countOnly {
+		it.evals++
+		return
+	}
 	syms := it.eval(cuts)
 	it.evals++
 	it.classify(cuts)
